@@ -277,3 +277,21 @@ Proof.
   destruct (g k p) as [sp|e]; [|reflexivity]. cbn [bind].
   rewrite IH; [reflexivity|]. intros k' p' Hin. apply H. now right.
 Qed.
+
+(* ------------------------------------------------------------------ *)
+(* to_docstring leaves the caller's IR as it was                         *)
+(* ------------------------------------------------------------------ *)
+
+Lemma to_docstring_ir : forall w i edd st il et est ww t i',
+    to_docstring w i edd st il et est ww = Ok (t, i') -> i' = i.
+Proof.
+  intros w i edd st il et est ww t i' H. unfold to_docstring in H.
+  destruct st; try discriminate.
+  destruct (params_of (ir_params i)) as [ps|]; [|discriminate].
+  match type of H with context [match ?x with Some _ => _ | None => _ end] => destruct x as [ret|] end;
+    [|discriminate].
+  repeat match type of H with
+         | bind ?x _ = _ => destruct x; [cbn [bind] in H|discriminate]
+         end.
+  now inversion H.
+Qed.
